@@ -105,7 +105,10 @@ def resolve_expected(expect: dict) -> dict[str, dict[str, tuple] | None]:
             if sub is None:
                 return None
             res.update(sub)
-        res.update(expect[name]["own"])
+        for key, (k, req, t) in expect[name]["own"].items():
+            prev = res.get(key)
+            # allOf is a conjunction: a property that an ancestor part requires stays required when a descendant declares it again
+            res[key] = (k, bool(req or (prev and prev[1])), t)
         for key in expect[name].get("tighten", []):
             if key in res:
                 k, _, t = res[key]
